@@ -171,4 +171,68 @@ def stepForwardGlobal (c : Clock) : Clock := refreshGlobal { c with now := c.now
 /-- labels known to the clock (guard used by the driver) -/
 def knows (c : Clock) (i : Nat) : Bool := c.sims.any (·.id == i)
 
+/-! ### User code acting INSIDE `step_forward`: requests and faults during the pipeline evaluation
+
+`step_forward` runs user code in exactly one place: `self._step_size_pipeline(update_index)` calls every registered
+step-size modifier (registration order) with the update index. A modifier may call
+`move_simulants_to_end` itself (a nested call of the time subsystem from one of its own callbacks) and it may raise.
+The code around the call is
+
+```
+self._clock_time += self.step_size                                   # (1) the clock has moved
+update_index = active(index, time).union(self._simulants_to_snooze)  # (2) pending set read: WHO is updated
+clocks_to_update = self._individual_clocks.get(update_index)         #     KeyError for a label without a row
+if not clocks_to_update.empty:
+    clocks_to_update["step_size"] = self._step_size_pipeline(update_index)      # (3) user code
+    clocks_to_update.loc[self._simulants_to_snooze, "step_size"] = ...          # (4) pending set read AGAIN: who is parked
+    self._simulants_to_snooze = pd.Index([])                                    # (5)
+```
+so a request made during (3) is parked by the same update when its simulants are rows of `clocks_to_update`
+(`.loc` raises `KeyError` otherwise), and an exception in (3) or (4) leaves the clock moved, the table and the
+global step untouched and the pending set – grown by the requests made before the exception – in place. -/
+
+/-- what one registered modifier does besides answering: `req` = the labels it hands to
+`move_simulants_to_end` (`[]` = no call, or a call with an empty index, which the guard ignores); `raises` = it
+raises; `reqFirst` = the request is made before the exception. -/
+structure ModCall where
+  req      : List Nat := []
+  raises   : Bool := false
+  reqFirst : Bool := true
+deriving Repr, DecidableEq
+
+/-- the pipeline evaluation as far as the pending set is concerned: modifiers run in registration order, the
+first one that raises ends the evaluation. Returns the clock with the grown pending set and whether the
+evaluation raised. -/
+def evalCalls (c : Clock) : List ModCall → Clock × Bool
+  | [] => (c, false)
+  | m :: ms =>
+    if m.raises then ((if m.reqFirst then moveToEnd c m.req else c), true)
+    else evalCalls (moveToEnd c m.req) ms
+
+/-- how a call of `step_forward` ends -/
+inductive Outcome where
+  | done       -- the update completed
+  | popError   -- (2) `PopulationView.get`: a pending label has no row in the state table (KeyError)
+  | raised     -- (3) a modifier raised
+  | keyError   -- (4) `.loc`: a label of the pending set – as it is AFTER the evaluation – is not being updated
+deriving Repr, DecidableEq
+
+/-- what every failed `step_forward` leaves behind: the clock has moved, nothing else has -/
+def failedAt (c : Clock) (now' : Int) : Clock := { c with now := now' }
+
+/-- `SimulationClock.step_forward(index)` (index = the whole population) with the modifiers' side effects.
+When it completes it is `stepForward` applied to the clock whose pending set already holds the requests made
+during the evaluation: those requests are part of the same update. -/
+def stepForwardRe (c : Clock) (mods : Nat → List (Option Nat)) (calls : List ModCall) : Clock × Outcome :=
+  let now' := c.now + c.step
+  if c.sims.isEmpty then (stepForward c mods, .done)                              -- `not index.empty`
+  else if !c.snooze.all (knows c) then (failedAt c now', .popError)
+  else if !c.sims.any (needsUpdate c now') then (stepForward c mods, .done)       -- nothing to update: no evaluation
+  else
+    let r := evalCalls c calls
+    if r.2 then (failedAt r.1 now', .raised)
+    else if r.1.snooze.all (knows c) && c.sims.all (fun s => !r.1.snooze.contains s.id || needsUpdate c now' s)
+      then (stepForward r.1 mods, .done)
+    else (failedAt r.1 now', .keyError)
+
 end Viv.Clock
